@@ -74,13 +74,29 @@ def model_funcs(m):
 
 
 def quick_check(assertions, ms=QUICK_MS):
+    """in-process check with a soft timeout and a watchdog interrupt (z3's own timeout is cooperative and can be late)"""
+    import threading
     s = z3.Solver()
     s.set('timeout', ms)
     s.add(assertions)
     t0 = time.time()
-    r = str(s.check())
+    wd = threading.Timer(ms / 1000.0 * 2 + 1.0, lambda: z3.main_ctx().interrupt())
+    wd.daemon = True
+    wd.start()
+    try:
+        r = str(s.check())
+    except z3.Z3Exception:
+        r = 'unknown'
+    finally:
+        wd.cancel()
     dt = time.time() - t0
-    return r, (s.model() if r == 'sat' else None), dt
+    m = None
+    if r == 'sat':
+        try:
+            m = s.model()
+        except z3.Z3Exception:
+            r = 'unknown'
+    return r, m, dt
 
 
 def interior(pc, margin=1e-4):
